@@ -212,6 +212,10 @@ func (m *MultiRun) step() bool {
 }
 
 func (m *MultiRun) waitTimers() bool {
+	if m.TimedWaits >= 40*len(m.Runs) {
+		// still sleeping on timers after that many of them: a tenant that is not going anywhere (see Run.waitTimers)
+		return false
+	}
 	r := &Run{W: m.W}
 	ok := r.waitTimers()
 	m.TimedWaits += r.TimedWaits
